@@ -22,6 +22,10 @@
             decls.symbols.spec_traverse(decls.symbols.spec_parent(None, Seq::empty()), crate::symspec::texts(split_dots(name)))
         }
         /// one of the first n command-line defines names no declaration
+        /// the define names a declared CONSTANT (C16: "a define that names no declared constant is an error")
+        pub open spec fn names_a_constant(decls: &asm::ItemDecls, name: &String) -> bool {
+            define_target(decls, name) is Some && decls.symbols.decls@[(define_target(decls, name)->0).0 as int].kind is Constant
+        }
         pub open spec fn some_define_unused(decls: &asm::ItemDecls, defines: Seq<asm::DriverSymbolDef>, n: int) -> bool decreases n {
-            n > 0 && (some_define_unused(decls, defines, n - 1) || define_target(decls, &defines[n - 1].name) is None)
+            n > 0 && (some_define_unused(decls, defines, n - 1) || !names_a_constant(decls, &defines[n - 1].name))
         }
